@@ -242,8 +242,21 @@ func c02WriteUniverse(dir string, tc *c02Case) (string, []byte) {
 				comps[k] = m
 			}
 			if f == "r/openapi.json" {
-				if tc.Pos == "op" {
+				if tc.Pos == "op" || tc.Pos == "op2" {
 					use := c02UseInOp(tc.Kind, tc.UseText)
+					if tc.Pos == "op2" {
+						// the same reference in a second operation
+						for k, v := range c02UseInOp(tc.Kind, tc.UseText) {
+							if pi, ok := v.(map[string]any); ok {
+								for _, o := range pi {
+									if om, ok := o.(map[string]any); ok && om["operationId"] != nil {
+										om["operationId"] = "opu2"
+									}
+								}
+							}
+							use[k+"2"] = v
+						}
+					}
 					if um, ok := any(use).(map[string]any); ok {
 						for k, v := range fd.paths { // the root's own path items stay next to the one that carries the use
 							if _, dup := um[k]; !dup {
